@@ -9,10 +9,11 @@ package main
 // ParseVCLOrSnippet on the main file (parse_error_main), linter.New(conf).Lint with a file
 // resolver (FatalError = parse error in an included module), l.Errors with rule and intrinsic
 // severity (overrides are applied by the runner, i.e. by the model).  A rule-less diagnostic has
-// the rule "-".
+// the rule "-".  Each diagnostic is printed as <rule>:<Severity as the linter prints it>:<base name of Token.File>.
 
 import (
 	"fmt"
+	"path/filepath"
 	"strings"
 
 	"github.com/ysugimoto/falco/v2/config"
@@ -116,7 +117,7 @@ func lintAPI(args string) string {
 	}
 	out := []string{"in", "main=0", "inc=" + inc}
 	for _, e := range lt.Errors {
-		out = append(out, fmt.Sprintf("%s:%s", ruleName(e.Rule), e.Severity))
+		out = append(out, fmt.Sprintf("%s:%s:%s", ruleName(e.Rule), e.Severity, filepath.Base(e.Token.File)))
 	}
 	return strings.Join(out, " ")
 }
